@@ -11,11 +11,11 @@ CONSTANTS
   AdvTtls = {0, 9}
   MaxNow = 5
   PruneCache = TRUE
-  CapPending = FALSE
+  CapPending = TRUE
   MaxHist = 7
-  WithdrawOnExpiry = TRUE
+  WithdrawOnExpiry = FALSE
   EraseOnLookup = FALSE
-INVARIANTS C03_Derived
+INVARIANTS C05_Clean
 VIEW View
 CONSTRAINT Bound
 CHECK_DEADLOCK FALSE
